@@ -520,7 +520,7 @@ class TrS(Tr):
             return (r if isinstance(op, ast.Is) else f"(!{r})"), "Bool"
         if isinstance(op, (ast.In, ast.NotIn)):
             x, tx = self.te(left, env)
-            if isinstance(right, ast.List):
+            if isinstance(right, (ast.List, ast.Tuple, ast.Set)):
                 parts = [self.te(e, env) for e in right.elts]
                 ty = self.unify([tx] + [p[1] for p in parts])
                 lst = "[" + ", ".join(self.co(p[0], p[1], ty) for p in parts) + "]"
